@@ -787,6 +787,19 @@ func (f *fctx) inlineCallWith(callee *ssa.Function, args []Term, bindings []ssa.
 	for l, n := range unroll {
 		c.con.Unroll[l] = n
 	}
+	if unroll == nil && calleeCon == nil {
+		// loops that were extracted into a contract-less helper: unroll directives of the root contract whose
+		// ordinal lies beyond the root function's own loops are applied to the helper's loops in order
+		// (soundness-neutral: an unrolled loop carries an unwinding assertion)
+		if root := f.rootFctx(); root.rootCon != nil && root.fn != nil {
+			nRoot := countLoops(root.fn)
+			for l, n := range root.rootCon.Unroll {
+				if l >= nRoot {
+					c.con.Unroll[l-nRoot] = n
+				}
+			}
+		}
+	}
 	c.cur = f.cur
 	c.curReach = f.curReach
 	c.entry = f.entry
@@ -835,6 +848,20 @@ func (f *fctx) inlineCallWith(callee *ssa.Function, args []Term, bindings []ssa.
 		}
 	}
 	return res
+}
+
+// countLoops: number of natural loop headers of a function (blocks that are the target of a back edge).
+func countLoops(fn *ssa.Function) int {
+	n := 0
+	for _, b := range fn.Blocks {
+		for _, p := range b.Preds {
+			if b.Dominates(p) {
+				n++
+				break
+			}
+		}
+	}
+	return n
 }
 
 func conjuncts(e Expr) []Expr {
